@@ -137,6 +137,17 @@ def check_eq(item):
             # children rendered through contract calls are dependencies too
             extra = sorted(reads - compared)
             ok = not extra
+            # sources that serve as the table of a Field must hash by everything equality compares: == on fields
+            # is always truthy, so fields_() separates two fields only through their hashes
+            if ci.short in ("queries.Table",) and compared - reads:
+                obs.append(Obligation(PROP, f"{hres[1].short}@{name}|eq/hash-covers", "eq/hash", hres[1].short, REFUTED,
+                                      detail=f"the hash of a {ci.name} depends on every attribute equality compares",
+                                      reason=f"equality compares {sorted(compared - reads)} but the hash ignores it: "
+                                             "fields of unequal tables collapse in fields_()",
+                                      witness={"family": "call", "oracle": "fields_dedup", "args": []}))
+            elif ci.short in ("queries.Table",):
+                obs.append(Obligation(PROP, f"{hres[1].short}@{name}|eq/hash-covers", "eq/hash", hres[1].short, PROVED,
+                                      detail=f"the hash of a {ci.name} depends on every attribute equality compares"))
             # a slot that enters the hash through str()/repr() must have a textual form of its own: the default
             # object repr contains the address, so equal objects would hash differently
             ident = []
